@@ -33,9 +33,9 @@ pub fn node_id_index(id: wac_graph::NodeId) -> usize {
 fn run_case(out: &mut Out, seed: u64, shard: u64, i: u64, per_lib: u64) {
     let l = i / per_lib;
     let mut lrng = lib_rng(seed, shard, l);
-    let lib = build_library(&mut lrng, 5, true);
+    let lib = build_library_sel(&mut lrng, 5, LibSel { wit: true, twins: true, ..Default::default() }, name_pool());
     let mut rng = case_rng(seed, shard, i);
-    let cfg = GenCfg { steps: 6 + rng.below(16), removal: false, definitions: rng.chance(1, 3), loose_imports: false, typed_items: false };
+    let cfg = GenCfg { steps: 6 + rng.below(16), removal: false, definitions: rng.chance(1, 3), loose_imports: false, typed_items: false, wire: rng.chance(1, 2) };
     let built = build_graph(&mut rng, &lib, &cfg);
     count_ops(&built.ops, &mut out.stats);
     let g = &built.graph;
@@ -162,6 +162,12 @@ fn run_case(out: &mut Out, seed: u64, shard: u64, i: u64, per_lib: u64) {
     }
     if dump.multi_inst_pkgs > 0 {
         out.count("shape:several-instantiations-of-one-package");
+    }
+    if dump.multi_version_names > 0 {
+        out.count("shape:one-package-name-instantiated-at-several-versions");
+    }
+    if dump.multi_arg_pairs > 0 {
+        out.count("shape:several-exports-of-one-instance-passed-to-one-instantiation");
     }
     if dump.alias_of_alias > 0 {
         out.count("shape:alias-of-alias");
